@@ -151,9 +151,9 @@ def check(ctx: Ctx) -> None:
     back = [q for q in reach if q.endswith(".expand_packages") or q.endswith("PackageExpansionTransformer.package") and q != pa.qualname]
     ctx.ob("C10.onelevel", "no-recursion", not any(q.endswith(".expand_packages") for q in reach),
            f"package expansion can re-enter itself ({back}): more than one level of packages would be expanded", file=FILE, function=pa.qualname)
-    check_path(ctx, "C10.state", [RESOLVER], "resolving an expression must not depend on earlier resolutions",
-               extra_classes=["ahbicht.expressions.package_expansion.PackageResolver"])
+    ctx.soft(lambda: check_path(ctx, "C10.state", [RESOLVER], "resolving an expression must not depend on earlier resolutions",
+               extra_classes=["ahbicht.expressions.package_expansion.PackageResolver"]))
     from ..purity import check_models_and_transformers
 
-    check_models_and_transformers(ctx, "C10.state", "resolving must not depend on earlier evaluations")
+    ctx.soft(lambda: check_models_and_transformers(ctx, "C10.state", "resolving must not depend on earlier evaluations"))
     ctx.assume("L3/L4 (Transformer visits every node, scan_values yields every leaf); brackets leave no node (C01.brackets)")
